@@ -207,12 +207,63 @@ def has_other(e):
     return False
 
 
+def _subst(e, actual):
+    """replace parameter paths of an inlined callee by the caller's argument expressions"""
+    if e[0] == "path":
+        root = e[1]
+        if isinstance(root, tuple) and root[0] == "arg" and 1 <= root[1] <= len(actual):
+            a = actual[root[1] - 1]
+            if not e[2] and not (len(e) > 3 and e[3]):
+                return a
+            if a[0] == "path":
+                return ("path", a[1], list(a[2]) + list(e[2]), list(a[3] if len(a) > 3 else []) + list(e[3] if len(e) > 3 else []))
+            return ("proj", a, list(e[2]), list(e[3] if len(e) > 3 else []))
+        return e
+    if e[0] == "call":
+        return ("call", e[1], [_subst(a, actual) for a in e[2]], e[3] if len(e) > 3 else 0)
+    if e[0] == "bin":
+        return ("bin", e[1], _subst(e[2], actual), _subst(e[3], actual))
+    if e[0] == "un":
+        return ("un", e[1], _subst(e[2], actual))
+    if e[0] == "proj":
+        return ("proj", _subst(e[1], actual), e[2], e[3] if len(e) > 3 else [])
+    return e
+
+
+_PROG = [None]
+
+
+def inline(e, depth=0):
+    """inline calls of small local helper functions / closures (accessor helpers such as `|sn| (sn.time.month() + 2) / 3`)"""
+    prog = _PROG[0]
+    if e[0] == "call":
+        args = [inline(a, depth) for a in e[2]]
+        tb = prog.bodies.get(e[1]) if prog else None
+        if tb is not None and tb.crate == "rustic_core" and depth < 4 and tb.locals[0] != "bool":
+            actual = args
+            if tb.is_closure() and len(args) == 2 and args[1][0] == "agg":
+                actual = [args[0]] + list(args[1][2])
+            return inline(_subst(flow.place_expr(tb, [0]), actual), depth + 1)
+        return ("call", e[1], args, e[3] if len(e) > 3 else 0)
+    if e[0] == "bin":
+        return ("bin", e[1], inline(e[2], depth), inline(e[3], depth))
+    if e[0] == "un":
+        return ("un", e[1], inline(e[2], depth))
+    if e[0] == "proj":
+        return ("proj", inline(e[1], depth), e[2], e[3] if len(e) > 3 else [])
+    return e
+
+
 def _eq_key(b, rv):
-    ea = normalise_side(flow.expr_of(b, rv[2]), 1)
-    eb = normalise_side(flow.expr_of(b, rv[3]), 2)
+    return _eq_key_expr(inline(flow.expr_of(b, rv[2])), inline(flow.expr_of(b, rv[3])))
+
+
+def _eq_key_expr(la, lb):
+    ea = normalise_side(la, 1)
+    eb = normalise_side(lb, 2)
     if has_other(ea) or has_other(eb):
-        ea2 = normalise_side(flow.expr_of(b, rv[2]), 2)
-        eb2 = normalise_side(flow.expr_of(b, rv[3]), 1)
+        ea2 = normalise_side(la, 2)
+        eb2 = normalise_side(lb, 1)
         if has_other(ea2) or has_other(eb2):
             raise Unsupported("comparison operands are not functions of sn1.time / sn2.time")
         ea, eb = ea2, eb2
@@ -223,6 +274,12 @@ def _eq_key(b, rv):
 
 def _helper_key(prog, b, t, depth):
     c = callee(t)
+    if re.search(r"PartialEq for \(.*\)>::eq$", c) and len(t["args"]) == 2:
+        # tuple equality (a, b) == (c, d): the conjunction of the component equalities
+        ea, eb = flow.expr_of(b, t["args"][0]), flow.expr_of(b, t["args"][1])
+        if ea[0] == "agg" and eb[0] == "agg" and ea[1][0] == "tuple" and eb[1][0] == "tuple" and len(ea[2]) == len(eb[2]):
+            return [_eq_key_expr(inline(x), inline(y)) for x, y in zip(ea[2], eb[2])]
+        raise Unsupported(f"tuple comparison with operands that are not tuple literals")
     tb = prog.bodies.get(c)
     if tb is None or tb.crate != "rustic_core" or t["dest_ty"] != "bool" or len(t["args"]) != 2:
         raise Unsupported(f"bool produced by {c}")
@@ -339,6 +396,7 @@ def same_partition(keyf, canonf, domain):
 
 def run(ctx, rep):
     prog = ctx.prog
+    _PROG[0] = prog
     rep.rule("C09.a", "each period predicate induces exactly the documented partition of time (exhaustive over the Gregorian cycle x minutes)")
     rep.rule("C09.b", "keep_checks rows pair predicate, counter and within field of one period; every keep option is wired and validated")
     rep.rule("C09.c", "protection rules precede keep rules in KeepOptions::apply; newest first")
